@@ -32,9 +32,35 @@ class GBook:
             else:
                 self.cells[pos], self.deps[pos] = self.formula(pos[0], done)
             done.append(pos)
+        self.shared_prefix_cluster()
         self.cycle_members = set()
         if cyclic:
             self.add_cycle()
+
+    def shared_prefix_cluster(self):
+        """several formulas whose areas start at the same cell with different extents, the first extent used again afterwards, and one
+        formula repeating a sub-expression after a different one (sub-expression methods are keyed by the owning cell and de-duplicated)"""
+        rng = self.rng
+        cand = [s for s in range(self.ns) if self.h[s] >= 3]
+        if not cand or rng.random() < 0.25:
+            return
+        s = rng.choice(cand)
+        c = rng.randrange(self.w[s])
+        r0 = rng.randrange(self.h[s] - 2)
+        r1 = rng.randrange(r0 + 1, self.h[s] - 1)
+        r2 = rng.randrange(r1 + 1, self.h[s])
+        a, b1, b2 = '%s%d' % (L[c], r0 + 1), '%s%d' % (L[c], r1 + 1), '%s%d' % (L[c], r2 + 1)
+        cells1 = [(s, c, r) for r in range(r0, r1 + 1)]
+        cells2 = [(s, c, r) for r in range(r0, r2 + 1)]
+        row = self.h[s]
+        self.h[s] += 1
+        self.w[s] = max(self.w[s], 4)
+        forms = [('=SUM(%s:%s)' % (a, b1), cells1), ('=SUM(%s:%s)' % (a, b2), cells2), ('=MAX(%s:%s)' % (a, b1), cells1),
+                 ('=SUM(%s:%s)+SUM(%s:%s)+SUM(%s:%s)' % (a, b1, a, b2, a, b1), cells1 + cells2 + cells1)]
+        rng.shuffle(forms)
+        for k, (text, deps) in enumerate(forms):
+            self.cells[(s, k, row)] = text
+            self.deps[(s, k, row)] = deps
 
     def ref(self, s, t):
         pre = '' if t[0] == s else TITLES[t[0]] + '!'
